@@ -19,6 +19,7 @@ import QuinnModel.Drv.Udp
 import QuinnModel.Drv.Sbuf
 import QuinnModel.Drv.Asm
 import QuinnModel.Drv.CidEcho
+import QuinnModel.Drv.FrameRules
 /-
 Native model driver: one request per line on stdin, one canonical response line on stdout.
 `case <id>` resets every component state (and is echoed).
@@ -67,6 +68,7 @@ def step (s : St) (line : String) : St × String :=
   | "pathresp" :: r => let (d, o) := Drv.pathresp s.pathresp r; ({ s with pathresp := d }, o)
   | "pendingacks" :: r => let (d, o) := Drv.pendingacks s.pendingacks r; ({ s with pendingacks := d }, o)
   | "frame" :: r => (s, Drv.frame r)
+  | "frules" :: r => (s, Drv.frules r)
   | "tparams" :: r => (s, Drv.tparams r)
   | "header" :: r => (s, Drv.header r)
   | "token" :: r => let (d, o) := Drv.C14.token s.token r; ({ s with token := d }, o)
